@@ -814,7 +814,7 @@ def _dig(fn):
     return fn
 
 
-def _resolve(selector, env, cnt):
+def _resolve(selector, env, cnt, receivers=()):
     if isinstance(selector, Call):
         el = _resolve(selector.element, env, cnt)
         captures = [_resolve(x, env, cnt) for x in selector.captures]
@@ -823,12 +823,23 @@ def _resolve(selector, env, cnt):
             # If fn is a method, we add a capture for "self" that must
             # match the instance.
             real_fn = _dig(fn.__func__)
-            selfname = inspect.getfullargspec(real_fn).args[0]
+            argnames = inspect.getfullargspec(real_fn).args
+            if not argnames:
+                raise SelectorError(
+                    f"Cannot select {fn} through its instance: the method"
+                    " has no named parameter for the instance"
+                )
+            selfname = argnames[0]
             el = el.clone(name=real_fn)
+            # Captures are identified by name along the whole call path: the
+            # instance of an enclosing method call may use the same name
+            taken = {cap.capture for cap in captures} | set(receivers)
+            capname = selfname if selfname not in taken else f"/{next(cnt)}"
+            receivers = (*receivers, capname)
             captures.append(
                 Element(
                     name=selfname,
-                    capture=selfname,
+                    capture=capname,
                     value=MatchIdentity(fn.__self__),
                 )
             )
@@ -839,7 +850,9 @@ def _resolve(selector, env, cnt):
         return selector.clone(
             element=el,
             captures=tuple(captures),
-            children=tuple(_resolve(x, env, cnt) for x in selector.children),
+            children=tuple(
+                _resolve(x, env, cnt, receivers) for x in selector.children
+            ),
         )
     elif isinstance(selector, Element):
         name = _eval(selector.name, env)
